@@ -165,8 +165,10 @@ class CaseEval:
             if e.func.id == "isinstance" and len(e.args) == 2:
                 v = self.ev(e.args[0])
                 tn = norm(e.args[1])
-                if v.kind in NUM and tn in ("int", "(int, np.integer)", "int | np.integer", "(int,)"):
-                    return AV("true")
+                int_types = {"int", "np.integer", "numpy.integer", "Integral", "numbers.Integral", "Real", "numbers.Real", "Number", "numbers.Number", "float", "np.floating", "numpy.floating"}
+                members = {x.strip() for x in tn.strip("()").replace("|", ",").split(",") if x.strip()}
+                if v.kind in NUM and members and members <= int_types and members & {"int", "Integral", "numbers.Integral", "Real", "numbers.Real", "Number", "numbers.Number"}:
+                    return AV("true")  # the partitioned input is a Python int
                 if v.kind == "none" and "None" not in tn:
                     return AV("false")
                 raise Undecided(f"cannot decide `{norm(e)}`")
